@@ -14,7 +14,7 @@ import (
 // H_C11_contain (style P): a real one-repository shard (written by the real writer) with one
 // arbitrary byte at a symbolic position - in the table of contents / trailer (regime 0) or in the
 // body: contents, posting lists, offsets, metadata (regime 1: a stride of positions over the whole
-// file), or with one offset/size field of the table of contents changed by +-1/+-4/-8 or set to 0 [also +8/+-2] (regime 2;
+// file), or (a compound shard of two repositories too in the thorough tier) with one offset/size field of the table of contents changed by +-1/+-4/-8 or set to 0 [also +8/+-2] (regime 2;
 // positions inside the two JSON metadata sections are skipped) - is loaded the way the loader does. If it loads, it is searched and listed through the
 // sharded searcher's per-shard entry points searchOneShard and listOneShard. No panic escapes
 // (loading has no recover; search and list are contained and report one crash), no loop runs past
@@ -24,7 +24,14 @@ func H_C11_contain() {
 	data := index.VerifSimpleShardBytes(1, "r1", []string{"a.go", "b.go"}, []string{"func needle() {}\nline two\n", "plain text\n"})
 	n := len(data)
 	var pos int
-	switch verifrt.Concretize(verifrt.IntRange("regime", 0, 2)) {
+	regime := verifrt.Concretize(verifrt.IntRange("regime", 0, 2))
+	if regime == 2 && verifrt.Param("compound", 0, 1) == 1 && verifrt.Bool("compoundShard") {
+		// thorough tier: the table-of-contents fields of a compound shard of two repositories too
+		// (it has a per-document repository table)
+		data = index.VerifCompoundShardBytes(data, index.VerifSimpleShardBytes(2, "r2", []string{"c.go"}, []string{"another needle\n"}))
+		n = len(data)
+	}
+	switch regime {
 	case 0:
 		pos = n - verifrt.Concretize(verifrt.IntRange("fromEnd", 1, verifrt.Param("window", 8, 48)))
 	case 1:
